@@ -292,6 +292,16 @@ class BiBinding(Binding):
     def life(self, m):
         return 'fitted' if m.theta is not None else 'unfitted'
 
+    # the documented (and only working) deserialisation entry points of the bivariate family are the
+    # base-class ones; Clayton.from_dict / Clayton.load are not part of what C14 demands
+    def from_dict(self, d, via):
+        from copulas.bivariate import Bivariate
+        return Bivariate.from_dict(d)
+
+    def load(self, path):
+        from copulas.bivariate import Bivariate
+        return Bivariate.load(path)
+
     def data(self, d):
         return bi_data(d)
 
